@@ -127,6 +127,21 @@ ConvIntVerdict(e) ==
           ELSE Good(slots, it)
 
 -----------------------------------------------------------------------------
+(* Orbit invariance (C04): the smallest table of an orbit does not depend on which member of the orbit was
+   given.  The harness canonizes f and the variant g = ApplyCert(f, tperm, tmask) that it built itself; the
+   variant is recomputed here (a wrong variant is a harness error, not a violation). *)
+CanonInvVerdict(e) ==
+  IF MODE # "C04" THEN Setup(slots, it)
+  ELSE IF e.out # "ok" THEN Bad("canonization did not return")
+  ELSE LET A == slots[e.a]
+           g == ApplyCert(A.n, A.on, e.tperm, ToSet(e.tmask))
+       IN IF ~(e.r.g.n = A.n /\ WFTab(e.r.g) /\ Meaning(e.r.g) = g)
+          THEN Assert(FALSE, <<"harness built a wrong variant", l>>)
+          ELSE IF ~(WFTab(e.r.r1) /\ WFTab(e.r.r2) /\ e.r.r1.n = A.n /\ e.r.r2.n = A.n) THEN Bad("malformed representative")
+          ELSE IF Meaning(e.r.r1) # Meaning(e.r.r2) THEN Bad("equivalent inputs, different representatives")
+          ELSE Good(slots, it)
+
+-----------------------------------------------------------------------------
 (* Programs on the iterator itself (C08): nth(k) for each k of e.ks on a fresh all_functions(n), then a
    consuming tail.  all_functions yields every function once in increasing order and then terminates, whatever
    Iterator method consumes it: nth(k) returns the item k places ahead, or nothing (and exhausts the iterator)
@@ -411,6 +426,48 @@ KernCheck(e) ==
      (IF Len(e.av.cubes) > 3 \/ e.av.n > 5 THEN 0 ELSE agree(DCs(e.r.cubes) = SopNotK(DCs(e.av.cubes))))
   ELSE 0
 
+(* C18 beyond the reach of the exact optimum: the same instance with its inputs permuted and its outputs
+   reordered has the same minimum cost.  Every answer must be sound; two answers of different cost show that the
+   more expensive one is not a minimum (the cheaper one, carried back through the permutation, is a witness).  Upper
+   bounds from forms the specification can write down itself: the minterm cover, and for Esop the Reed-Muller form. *)
+SolOf(r) == [j \in 1..Len(r) |-> [cubes |-> {DC(r[j].cubes[k]) : k \in 1..Len(r[j].cubes)},
+                                   ecubes |-> {DE(r[j].ecubes[k]) : k \in 1..Len(r[j].ecubes)}]]
+OptVarVerdict(e) ==
+  IF MODE # "C18" THEN Setup(slots, it)
+  ELSE IF e.out # "ok" THEN Bad("optimizer did not return")
+  ELSE
+  LET n == e.n
+      isEsop == e.kind = "esop"
+      base == [j \in 1..Len(e.fs) |-> ToSet(e.fs[j])]
+      fsOf(k) == [j \in 1..Len(e.r[k].fs) |-> ToSet(e.r[k].fs[j])]
+      vr(k) == IF k = 1 THEN [perm |-> [i \in 1..n |-> i - 1], order |-> [j \in 1..Len(e.fs) |-> j - 1]] ELSE e.variants[k - 1]
+      variantOK(k) == LET v == vr(k) IN
+                      /\ Len(e.r[k].fs) = Len(e.fs)
+                      /\ \A j \in 1..Len(e.fs) : fsOf(k)[j] = ApplyCert(n, base[v.order[j] + 1], v.perm, {})
+      sound(k) == LET sol == SolOf(e.r[k].sol)
+                      fs == fsOf(k)
+                  IN /\ Len(e.r[k].sol) = Len(e.fs)
+                     /\ \A j \in 1..Len(e.fs) : Cardinality(sol[j].cubes) = Len(e.r[k].sol[j].cubes)
+                                                   /\ Cardinality(sol[j].ecubes) = Len(e.r[k].sol[j].ecubes)
+                     /\ \A j \in 1..Len(e.fs) : WFTab(e.r[k].sol[j].lut) /\ Meaning(e.r[k].sol[j].lut) = fs[j]
+                                                   /\ ToSet(e.r[k].sol[j].vals) = fs[j]
+                     /\ IF isEsop THEN SoundXor(n, fs, sol) ELSE SoundOr(n, fs, sol)
+      cost(k) == SolutionCost(SolOf(e.r[k].sol), e.andc, e.xorc, e.orc, isEsop)
+      costs == [k \in 1..Len(e.r) |-> cost(k)]
+      \* forms anyone can write down
+      minterms == [j \in 1..Len(e.fs) |-> [cubes |-> {Minterm(n, AsSet(m, n)) : m \in base[j]}, ecubes |-> {}]]
+      pprm == [j \in 1..Len(e.fs) |-> [cubes |-> PprmCubes(n, base[j]), ecubes |-> {}]]
+      bound == IF isEsop
+               THEN MinNat({SolutionCost(minterms, e.andc, e.xorc, e.orc, TRUE), SolutionCost(pprm, e.andc, e.xorc, e.orc, TRUE)})
+               ELSE SolutionCost(minterms, e.andc, e.xorc, e.orc, FALSE)
+  IN IF \E k \in 1..Len(e.r) : ~variantOK(k) THEN Assert(FALSE, <<"harness built a wrong variant", l>>)
+     ELSE IF \E k \in 1..Len(e.r) : ~sound(k) THEN Bad("form does not denote its function")
+     ELSE IF \E k \in 1..Len(e.r) : costs[k] # costs[1]
+          THEN (IF PrintT(<<"INFO", l, "costs of equivalent instances", costs>>) THEN Bad("not minimum cost") ELSE Bad("?"))
+     ELSE IF costs[1] > bound
+          THEN (IF PrintT(<<"INFO", l, "cost", costs[1], "witness", bound>>) THEN Bad("not minimum cost") ELSE Bad("?"))
+     ELSE Good(slots, it)
+
 TwoVerdict(e) ==
   IF ~TwoKindStrict(e.k, e.op) THEN Setup(slots, it)
   ELSE IF e.out # "ok" THEN Bad("outcome " \o e.out \o " not allowed")
@@ -483,10 +540,12 @@ Verdict(e) ==
   ELSE IF e.op = "rand_end" THEN RandEndVerdict(e)
   ELSE IF e.op = "random" THEN RandomVerdict(e)
   ELSE IF e.op = "optimize" THEN OptVerdict(e)
+  ELSE IF e.op = "optimize_var" THEN OptVarVerdict(e)
   ELSE IF e.ty = "two" THEN TwoVerdict(e)
   ELSE IF e.op = "canon" THEN CanonVerdict(e)
   ELSE IF e.op = "conv_int" THEN ConvIntVerdict(e)
   ELSE IF e.op = "iter_prog" THEN IterProgVerdict(e)
+  ELSE IF e.op = "canon_inv" THEN CanonInvVerdict(e)
   ELSE GenericVerdict(e)
 
 \* Dual traces: the same script run a second time (other build profile / other table type)
